@@ -599,6 +599,13 @@ def impl_dtd_attr_fields(a):
         g.close()
 
 
+def classify_dtd_attr_one(a, out):
+    d = a["decl"]
+    res = out.get("ok") if isinstance(out, dict) else None
+    kinds = sorted({("error" if r == "ParserError" else "none" if r == [None] else "value") for r in (res or [])})
+    return d["default"] + ("+v" if d["value"] is not None else "") + "/" + d.get("type", "CDATA") + "/" + "+".join(kinds)
+
+
 def classify_dtd_attr(a, out):
     ks = sorted({d["default"] + ("+v" if d["value"] is not None else "") for d in a["decls"]})
     return ",".join(ks) + ("/err" if isinstance(out, dict) and "err" in out else "")
@@ -684,6 +691,26 @@ def classify_enum_default(a, out):
     return f"renamed={min(renamed, 3)}/{'tokens' if a['tokens'] else 'single'}/{'default-renamed' if any(m['name'] != m['value'] for m in hit) else 'default-plain' if hit else 'no-member'}"
 
 
+# ------------------------------------------------------------------ readAttr on DTD attribute declarations
+def gen_dtd_read_attr(rng, tier):
+    for tp in ("CDATA", "NMTOKEN", "enum"):
+        for k in ("required", "implied", "fixed", "none"):
+            v = "x" if k in ("fixed", "none") else None
+            yield {"decl": {"default": k, "value": v, "type": tp, "values": ["x", "y", "z"]}, "givens": [None, "y", "x"]}
+    for _ in range(n_cases(tier, 15, 300)):
+        d = G.gen_dtd_attr_decl(rng)
+        pool = d.get("values") or ["v1", "D", "x"]
+        yield {"decl": d, "givens": [None, rng.choice(pool), d["value"] or pool[0]]}
+
+
+def impl_dtd_read_attr(a):
+    dtd = "<!ELEMENT r EMPTY>\n" + G.dtd_attlist([a["decl"]])
+    try:
+        return ok(G.real_read_attr({"s.dtd": dtd}, a["givens"], lambda x: "<r" + (f' d0="{x}"' if x is not None else "") + "/>"))
+    except Exception as e:  # noqa: BLE001
+        return err("GEN:" + type(e).__name__)
+
+
 CORRS = [
     Corr("c16.e2e", gen_e2e, impl_e2e, spec=spec_e2e, compare=compare_e2e,
          describe="spec-level: DTD (content model, ATTLIST variants, xmlns declarations) -> real pipeline (default and compound fields) -> strict parse of valid documents -> re-serialise; expected: faithful"),
@@ -691,6 +718,8 @@ CORRS = [
          describe="DtdParser.build_ns_map on constructed attribute lists vs model"),
     Corr("gen.enum_default", gen_enum_default, impl_enum_default, classify=classify_enum_default,
          describe="enumerations whose values collide after slugging (renamed by the real RenameDuplicateAttributes): SanitizeAttributesDefaultValue.is_valid_enum_type placeholder and the member values Filters.field_default_enum / constant_name resolve it to vs model"),
+    Corr("gen.dtd_read_attr", gen_dtd_read_attr, impl_dtd_read_attr, classify=classify_dtd_attr_one,
+         describe="readAttr (the conclusion of dtd_attribute_faithful): whole real pipeline on one ATTLIST declaration, then the real XmlParser (fail_on_unknown_attributes) on documents that omit / give the attribute (valid or not) vs readAttr (dtdAttrField d)"),
     Corr("gen.dtd_attr", gen_dtd_attr, impl_dtd_attr, classify=classify_dtd_attr,
          describe="DtdMapper.build_attribute / build_attribute_restrictions on constructed DtdAttribute objects (also ungrammatical keyword/value combinations) vs model"),
     Corr("gen.dtd_attr_fields", gen_dtd_attr_fields, impl_dtd_attr_fields, classify=classify_dtd_attr,
@@ -751,7 +780,7 @@ LEVEL_TEXT = (
     "the occurrence indicators sit, a non-list field is never repeated and a required field is always present in a DTD-valid document, and a list "
     "field is needed; the mapper's fields are literally the XSD mapper's sites of the same particle; counterexample theorem for repeated names. "
     "Attribute declarations: whatever a DTD-valid element carries for #REQUIRED / #IMPLIED / #FIXED / defaulted attributes is accepted and read as the value the DTD prescribes "
-    "(dtd_attribute_faithful). Element declarations: mixed content gives one wildcard list, EMPTY no fields, (#PCDATA) a text field; ANY gives a single wildcard field that drops character data after a child (counterexample theorem dtd_any_drops_text, finding C16-any-drops-text). Tied to /repo by "
+    "(dtd_attribute_faithful). Element declarations: mixed content gives one wildcard list, EMPTY no fields, (#PCDATA) a text field; the choices of a mixed class are exactly the listed elements (dtd_mixed_choices); ANY gives a single wildcard field that drops character data after a child (finding C16-any-drops-text, shown by the replay on the real parser). The conclusion readAttr of dtd_attribute_faithful is tied to the real parser by gen.dtd_read_attr. Tied to /repo by "
     "correspondence of DtdMapper sites, the handlers and the generated field shapes of the whole pipeline; documents and attribute defaults end to end by the oracle."
 )
 LEVEL_NOTE = "Trusted: Lean kernel, particle language spec, libxml2 DTD reader/validator, stand-in renderer, sampling correspondence."
